@@ -198,6 +198,7 @@ def analyze(ctx, rules):
                    "%s uses Iterator::%s (%s): an adaptor that drops, truncates or reorders elements, in a function whose loops must visit every element in order, and no rule analyses this use" % (M.short_name(oname), kind, ", ".join(locs)), locs[0])
         ctx.sample({"rule": rule, "adaptor_sites_in_area": n})
     analyze_exits(ctx, rules)
+    analyze_list_ops(ctx, rules)
 
 
 # Third closed set: the places where a loop can be left.  `continue` written as `break`, an early `return` inside a walk that must
@@ -295,6 +296,71 @@ EXIT_UNDERSTOOD = [
     (r"CharacterClassRegistry::add_character_class$", "C02.f lookup of an equal class"),
     (r"ScannerImpl::mode_name$|scanner::Scanner::mode_name$", "C06.g lookup by index"),
 ]
+
+
+# Fourth closed set: operations that reorder or shorten a list *in place* — no adaptor, no loop: `v.sort_unstable_by_key(..)`,
+# `v.reverse()`, `v.swap_remove(i)`, `v.retain(..)`, `v.truncate(n)`, `v.drain(..)`.  (Seed C03j: a `sort_unstable_by_key` added to
+# `merge_transitions`, whose index arithmetic relies on the representative standing in front of the states merged into it.)
+LIST_OPS = [
+    ("order", r"(<impl \[.*\]>|Vec::<.*>|VecDeque::<.*>)::(sort|sort_by|sort_by_key|sort_by_cached_key|sort_unstable|sort_unstable_by|sort_unstable_by_key|dedup|dedup_by|dedup_by_key)(::<.*>)?$"),
+    ("reorder", r"(<impl \[.*\]>|Vec::<.*>|VecDeque::<.*>)::(reverse|swap|rotate_left|rotate_right|swap_remove|swap_remove_back|swap_remove_front|select_nth_unstable\w*)(::<.*>)?$"),
+    ("shorten", r"(<impl \[.*\]>|Vec::<.*>|VecDeque::<.*>|String)::(truncate|drain|split_off|retain|retain_mut|extract_if)(::<.*>)?$"),
+]
+
+
+def list_ops(F):
+    """{owner function name: {kind: number of call sites}} (closures and unknown helpers accounted at their owners)"""
+    from .common import owners, is_derived
+    out = {}
+    for fn in F.fns.values():
+        if is_derived(fn):
+            continue
+        found = {}
+        for bb, t in fn.calls():
+            if t.get("exp_outer") in ("debug_assert!", "trace!", "debug!", "info!", "warn!", "error!", "assert!", "debug_assert_eq!"):
+                continue
+            nm = M.call_name(t)
+            for kind, rx in LIST_OPS:
+                if re.search(rx, nm):
+                    found[kind] = found.get(kind, 0) + 1
+        if not found:
+            continue
+        for o, _ in (owners(F, fn) or [(fn, None)]):
+            d = out.setdefault(o.name, {})
+            for k, n in found.items():
+                d[k] = d.get(k, 0) + n
+    return out
+
+
+def analyze_list_ops(ctx, rules):
+    import json, os
+    F = ctx.facts
+    try:
+        ref = json.load(open(os.path.join(os.path.dirname(__file__), "list_ops.json")))
+    except (OSError, ValueError):
+        for rule in rules:
+            ctx.missing(rule, "rules/list_ops.json (tools/gen_list_ops)")
+        return
+    cur = list_ops(F)
+    for rule in rules:
+        area = AREAS[rule]
+        n = 0
+        for oname, kinds in sorted(cur.items()):
+            if not re.search(area, oname) or re.search(IRRELEVANT, oname):
+                continue
+            r = ref.get(oname, ref.get(re.sub(r"<'\w+>", "<'_>", oname), {}))
+            for kind, k in sorted(kinds.items()):
+                n += 1
+                allowed = r.get(kind, 0)
+                ok = k <= allowed
+                # a function that already puts its list in order may do so in other words (`extend + sort + dedup` for a push-if-absent
+                # loop that was followed by a sort): more order operations are accepted where there was one
+                if not ok and kind == "order" and allowed > 0:
+                    ok = True
+                ctx.ob(rule, "list-ops:%s:%s" % (M.short_name(oname), kind), ok,
+                       "%s: %d in-place operation(s) of kind '%s' (sort/dedup | reverse/swap/swap_remove | truncate/drain/retain), the reference tree has %d%s" % (
+                           M.short_name(oname), k, kind, allowed, "" if ok else ": the order or the length of a list changes where the rules assume it does not"), "")
+        ctx.sample({"rule": rule, "in_place_list_operations_in_area": n})
 
 
 def analyze_exits(ctx, rules):
